@@ -1917,7 +1917,7 @@ Qed.
 
 Fixpoint script_size (sc : script) : nat :=
   match sc with
-  | mkScript _ _ work _ _ =>
+  | mkScript _ _ work _ _ _ =>
       S ((fix ws (l : list wact) : nat :=
             match l with
             | [] => O
@@ -1928,7 +1928,7 @@ Fixpoint script_size (sc : script) : nat :=
 Lemma script_size_in o p reqs sc' sc :
   In (WExec o p reqs sc') (sc_work sc) -> (script_size sc' < script_size sc)%nat.
 Proof.
-  destruct sc as [cp cpw work rs v]. cbn [sc_work script_size].
+  destruct sc as [cp cpw work rs v vl]. cbn [sc_work script_size].
   induction work as [|a work IH]; intros X; [destruct X|].
   destruct X as [->|X].
   - lia.
@@ -2449,4 +2449,92 @@ Proof.
   rewrite <- (prio_only_lock _ _ r P). apply watchdog_own_locks_proof.
   - eapply prio_only_wf; eauto.
   - intros v why H. rewrite (prio_only_owner _ _ r P). eauto.
+Qed.
+
+(* ------------------------------------------------------------------ *)
+(* the objects the callbacks use (which exception is raised, which falsy
+   verdict is returned, what work_fn returns: [sc_val]) decide nothing:
+   the whole outcome of execute_operation - state, success, phase reached,
+   callback log - is the same for every choice, at every nesting depth *)
+
+Definition with_val_w (k : Z) (a : wact) : wact :=
+  match a with
+  | WExec o p reqs sc' => WExec o p reqs (with_val k sc')
+  | _ => a
+  end.
+
+Lemma with_val_eq k sc :
+  with_val k sc = mkScript (sc_cp sc) (sc_cpw sc) (map (with_val_w k) (sc_work sc)) (sc_work_raises sc) (sc_validate sc) k.
+Proof. destruct sc; reflexivity. Qed.
+
+Lemma exec_validate_ext fl w s o sc sc' log :
+  sc_cp sc = sc_cp sc' -> sc_cpw sc = sc_cpw sc' -> sc_validate sc = sc_validate sc' ->
+  exec_validate fl w s o sc log = exec_validate fl w s o sc' log.
+Proof. intros H1 H2 H3. unfold exec_validate, cb_of, cp_of. now rewrite H1, H2, H3. Qed.
+
+Lemma exec_after_work_ext fl w s o sc sc' log :
+  sc_cp sc = sc_cp sc' -> sc_cpw sc = sc_cpw sc' -> sc_validate sc = sc_validate sc' ->
+  exec_after_work fl w s o sc log = exec_after_work fl w s o sc' log.
+Proof.
+  intros H1 H2 H3. unfold exec_after_work, cb_of, cp_of. rewrite H1, H2.
+  destruct (run_work_with no_nested [] fl w (upd_ctx s o c_set_exec) _) as [s6' l2].
+  destruct (advance_at _ s6' o _) as [s7 b2].
+  destruct (negb b2); [reflexivity|]. now apply exec_validate_ext.
+Qed.
+
+Lemma exec_body_ext chk fl w (rw rw' : runner) s o p reqs sc sc' :
+  sc_cp sc = sc_cp sc' -> sc_cpw sc = sc_cpw sc' ->
+  sc_work_raises sc = sc_work_raises sc' -> sc_validate sc = sc_validate sc' ->
+  (forall s0, rw s0 (sc_work sc) = rw' s0 (sc_work sc')) ->
+  exec_body chk fl w rw s o p reqs sc = exec_body chk fl w rw' s o p reqs sc'.
+Proof.
+  intros H1 H2 H3 H4 H5.
+  unfold exec_body, exec_begin, exec_acquired, exec_work, cb_of, cp_of. rewrite H1, H2, H3.
+  destruct (run_work_with no_nested [] fl w (start_op s o p false) _) as [s0' l0].
+  destruct (advance_at G0 s0' o _) as [s1 b0].
+  destruct (acquire_all fl s1 o 0 reqs) as [s2 out].
+  destruct out; [|reflexivity|reflexivity].
+  destruct (run_work_with no_nested [] fl w (upd_ctx s2 o c_set_racq) _) as [s3' l1].
+  destruct (advance_at _ s3' o _) as [s4 b1].
+  destruct (negb b1); [reflexivity|].
+  destruct (chk && negb (is_active s4 o)); [reflexivity|].
+  rewrite H5. destruct (rw' s4 (sc_work sc')) as [s5 wl].
+  destruct (sc_work_raises sc'); [reflexivity|]. now apply exec_after_work_ext.
+Qed.
+
+Lemma run_work_with_val nested encl fl w k : forall acts s,
+  (forall o p reqs sc', In (WExec o p reqs sc') acts ->
+     forall s', nested s' o p reqs (with_val k sc') = nested s' o p reqs sc') ->
+  run_work_with nested encl fl w s (map (with_val_w k) acts) = run_work_with nested encl fl w s acts.
+Proof.
+  induction acts as [|a acts IH]; intros s H; [reflexivity|].
+  assert (IH' : forall s, run_work_with nested encl fl w s (map (with_val_w k) acts)
+                          = run_work_with nested encl fl w s acts).
+  { intros s'. apply IH. intros; apply H; now right. }
+  destruct a as [|f|o p reqs sc']; cbn [map with_val_w run_work_with].
+  - now rewrite IH'.
+  - destruct (fstep fl w s f) as [s1 ret]. now rewrite IH'.
+  - destruct (is_active s o || memz o encl).
+    + now rewrite IH'.
+    + rewrite (H o p reqs sc' (or_introl eq_refl)). destruct (nested s o p reqs sc') as [s1 r]. now rewrite IH'.
+Qed.
+
+Lemma exec_in_with_val chk fl w k : forall n sc, (script_size sc < n)%nat -> forall encl s o p reqs,
+  exec_in chk fl w (with_val k sc) encl s o p reqs = exec_in chk fl w sc encl s o p reqs.
+Proof.
+  induction n as [|n IHn]; intros sc Hn encl s o p reqs; [lia|].
+  rewrite !exec_in_eq. rewrite with_val_eq.
+  apply exec_body_ext; try reflexivity.
+  intros s0. cbn [sc_work]. unfold run_work_x. apply run_work_with_val.
+  intros o' p' reqs' sc' Hi s'. apply IHn. apply script_size_in in Hi. lia.
+Qed.
+
+Lemma values_irrelevant_proof chk fl w sc sc' encl s o p reqs :
+  with_val 0 sc = with_val 0 sc' ->
+  exec_in chk fl w sc encl s o p reqs = exec_in chk fl w sc' encl s o p reqs.
+Proof.
+  intros E.
+  rewrite <- (exec_in_with_val chk fl w 0 (S (script_size sc)) sc (Nat.lt_succ_diag_r _)).
+  rewrite <- (exec_in_with_val chk fl w 0 (S (script_size sc')) sc' (Nat.lt_succ_diag_r _)).
+  now rewrite E.
 Qed.
